@@ -38,6 +38,10 @@ var (
 */
 func Decode(r io.Reader) p.DpFactory {
 	return func() (p.DataProvider, *p.ZogIssue) {
+		if r == nil {
+			// a request without a body (http.NewRequest(method, url, nil)) is an empty document
+			return nil, &p.ZogIssue{Code: zconst.IssueCodeInvalidJSON, Err: io.EOF}
+		}
 		closer, ok := r.(io.Closer)
 		if ok {
 			defer closer.Close()
